@@ -113,7 +113,7 @@ def check(ctx, replay=None):
             dict(module="LoaderGen", cfg=lf.gen_cfg("{pool, u2}", 1, FLAGS, '{"valid"}', "{pool}", True), name="LoaderGenC11", timeout=3000)]
     res = ctx.tlc_many(jobs, parallel=2)
     if res[0]["violated"]:
-        ctx.note("TLC: %s violated (model level)" % res[0]["violated"])
+        raise vlib.Machinery("TLC: %s violated: the specification of the unchanged design does not satisfy its own invariant" % res[0]["violated"])
     ctx.cov["states"] -= res[1]["distinct"]
     ctx.cov["transitions"] -= res[1]["generated"]
     hists = lf.histories(res[1]["out"])
